@@ -431,8 +431,11 @@ static int check_pivotin_args (
 {
 	int i;
 
+	/* columns added since the last simplex call keep factorok, but the simplex
+	 * work arrays still have the old dimensions */
 	if (p->basis == 0 || p->factorok == 0 || p->lp->vstat == 0 ||
-			p->lp->baz == 0 || p->qstatus == QS_LP_MODIFIED)
+			p->lp->baz == 0 || p->qstatus == QS_LP_MODIFIED ||
+			p->lp->ncols != p->qslp->ncols || p->lp->nrows != p->qslp->nrows)
 	{
 		QSlog("no factored basis available in %s", fname);
 		return 1;
